@@ -214,9 +214,17 @@ func (f *faultState) arm(r *runner, point string) {
 		if l, err := os.Readlink(r.target); err == nil {
 			cur = filepath.Base(l)
 		}
+		// the version directories the sibling targets in the same base directory point to are not
+		// "old": no step of this Write works in them
+		live := map[string]bool{}
+		for _, s := range r.siblings {
+			if l, err := os.Readlink(s.target); err == nil {
+				live[filepath.Base(l)] = true
+			}
+		}
 		n := 0
 		for _, e := range ents {
-			if !e.IsDir() || e.Name() == cur {
+			if !e.IsDir() || e.Name() == cur || live[e.Name()] {
 				continue
 			}
 			if old || !f.pre[e.Name()] {
